@@ -33,7 +33,7 @@ RULE = ("corpus, then random F2 conditions (depth<=4; and_; or_ between same-var
 
 
 def budget(tier: str) -> int:
-    return 1500 if tier == "quick" else 40000
+    return 6000 if tier == "quick" else 80000
 
 
 def _same_var_cond(rnd, vs_all, kinds, depth, lo):
